@@ -80,6 +80,11 @@ Definition run_c09 (w : wire) : wire :=
            | Some c, _, _, _ => [zn c]
            | _, _, _, _ => [4]
            end)
+      else if op =? 10 then      (* label-based constructor: labels, integer weights *)
+      run_dec (do n <- getN; do ls <- getNs n; do ws <- getZs n; ret (ls, map inject_Z ws)) (den :: w')
+        (fun '(ls, ws) =>
+           let '(nb, M) := ctor_weights_matrix Qops ls ws in
+           0 :: zn nb :: flat_map (fun r => map (fun q => Qnum (Qred q)) r) M)
       else if op =? 5 then
       run_dec (do n <- getN; do ls <- getNs n; do ws <- getZs n; ret (ls, map inject_Z ws)) (den :: w')
         (fun '(ls, ws) =>
